@@ -25,6 +25,7 @@ const (
 // that the oracle is written once for CalDAV and CardDAV. Every closure calls
 // the public API of go-webdav and converts the result to neutral values.
 type stack struct {
+	ctx                 context.Context // context of every client call made through this face (nil = Background)
 	proto               string
 	dataNS, dataLocal   string // the REPORT property carrying the object
 	collLocal           string // resourcetype child marking a collection of this protocol
@@ -105,7 +106,10 @@ func cardObjs(l []carddav.AddressObject) []nObj {
 var fullCompReq = caldav.CalendarCompRequest{Name: "VCALENDAR", AllProps: true, AllComps: true}
 
 func calClientFace(st *stack, cl *caldav.Client) {
-	ctx := context.Background()
+	ctx := st.ctx
+	if ctx == nil {
+		ctx = context.Background()
+	}
 	st.proto, st.dataNS, st.dataLocal, st.collLocal, st.descLocal, st.ext = "caldav", nsCal, "calendar-data", "calendar", "calendar-description", ".ics"
 	st.decode = decodeCal
 	st.putOp = "PutCalendarObject"
@@ -156,7 +160,10 @@ func calClientFace(st *stack, cl *caldav.Client) {
 }
 
 func cardClientFace(st *stack, cl *carddav.Client) {
-	ctx := context.Background()
+	ctx := st.ctx
+	if ctx == nil {
+		ctx = context.Background()
+	}
 	st.proto, st.dataNS, st.dataLocal, st.collLocal, st.descLocal, st.ext = "carddav", nsCard, "address-data", "addressbook", "addressbook-description", ".vcf"
 	st.decode = decodeCard
 	st.putOp = "PutAddressObject"
@@ -225,6 +232,15 @@ const endpoint = "http://dav.example/"
 
 // buildServerStack wires real client <-> real handler <-> recording backend.
 func buildServerStack(w *world) (*stack, error) {
+	st, _, err := buildServerStackVia(w, nil)
+	return st, err
+}
+
+// buildServerStackVia does the same with an optional gate between the client
+// and the in-process server. face(ctx) returns one more face of the SAME
+// client whose calls carry ctx (the overlap family gives every concurrent
+// caller its own face so that its exchanges can be told apart).
+func buildServerStackVia(w *world, gt *gate) (*stack, func(ctx context.Context, id int) *stack, error) {
 	st := &stack{}
 	errs := map[string]error{}
 	for _, o := range w.Objs {
@@ -259,13 +275,26 @@ func buildServerStack(w *world) (*stack, error) {
 			be.PutResult = &caldav.CalendarObject{Path: w.PutRes.Path, ETag: w.PutRes.ETag, ModTime: w.PutRes.Mod, ContentLength: w.PutRes.Len}
 		}
 		ip := &doubles.InProc{Handler: &caldav.Handler{Backend: be}, Record: true}
-		cl, err := caldav.NewClient(ip, endpoint)
+		var hc webdav.HTTPClient = ip
+		if gt != nil {
+			gt.ip = ip
+			hc = gt
+		}
+		cl, err := caldav.NewClient(hc, endpoint)
 		if err != nil {
-			return nil, err
+			return nil, nil, err
 		}
 		calClientFace(st, cl)
 		st.exchanges, st.calls = ip.Exchanges, be.Calls
-		return st, nil
+		face := func(ctx context.Context, id int) *stack {
+			f := &stack{ctx: ctx}
+			calClientFace(f, cl)
+			f.exchanges = func() []doubles.Exchange { return gt.take(id) }
+			f.calls = func() []doubles.Call { return nil }
+			f.setQuery, f.setPutRes = func() {}, func() {}
+			return f
+		}
+		return st, face, nil
 	}
 	be := &doubles.CardBackend{Principal: w.Principal, HomeSet: w.Home, ObjErr: errs}
 	for _, c := range w.Colls {
@@ -293,13 +322,26 @@ func buildServerStack(w *world) (*stack, error) {
 		be.PutResult = &carddav.AddressObject{Path: w.PutRes.Path, ETag: w.PutRes.ETag, ModTime: w.PutRes.Mod, ContentLength: w.PutRes.Len}
 	}
 	ip := &doubles.InProc{Handler: &carddav.Handler{Backend: be}, Record: true}
-	cl, err := carddav.NewClient(ip, endpoint)
+	var hc webdav.HTTPClient = ip
+	if gt != nil {
+		gt.ip = ip
+		hc = gt
+	}
+	cl, err := carddav.NewClient(hc, endpoint)
 	if err != nil {
-		return nil, err
+		return nil, nil, err
 	}
 	cardClientFace(st, cl)
 	st.exchanges, st.calls = ip.Exchanges, be.Calls
-	return st, nil
+	face := func(ctx context.Context, id int) *stack {
+		f := &stack{ctx: ctx}
+		cardClientFace(f, cl)
+		f.exchanges = func() []doubles.Exchange { return gt.take(id) }
+		f.calls = func() []doubles.Call { return nil }
+		f.setQuery, f.setPutRes = func() {}, func() {}
+		return f
+	}
+	return st, face, nil
 }
 
 // stable reports whether the codec library itself round-trips the object
